@@ -338,6 +338,12 @@ func (s *StreamJoin) receiveRecord(ctx ExecutionContext, produce ProduceFn, myRe
 		}
 		key[i] = value
 	}
+	for i := range key {
+		if key[i].TypeID == octosql.TypeIDNull {
+			// An equality condition never matches a NULL key, so this record can't be part of any output.
+			return nil
+		}
+	}
 
 	if !oneStreamRemains {
 		// Update count in my record tree
